@@ -1108,6 +1108,26 @@ def const_operands(f):
                     yield o
 
 
+def direct_closure_calls(prog, closure_fn):
+    """[(parent Fn, call, [argument operands])] — the places where a local closure is called by name in the function that defines it
+    (`let f = |a, b| ..; f(x, y)`): the operands of the argument tuple, in parameter order (parameter 2 of the closure body is the first)"""
+    parent = prog.by_crate[closure_fn.crate].get(closure_fn.parent)
+    if parent is None:
+        return []
+    locs = {st['dst']['l'] for b in parent.blocks.values() for st in b['stmts']
+            if st['r']['rv'] == 'agg' and st['r']['kind'] == 'closure:' + closure_fn.name and not st['dst']['p']}
+    out = []
+    for c in parent.calls:
+        if c.short not in ('call', 'call_mut', 'call_once') or len(c.args) != 2 or not is_place(c.args[1]):
+            continue
+        if not (set(provenance(parent, c.args[0]).locals) | {c.arg_local(0)}) & locs:
+            continue
+        tup = parent.single_def(c.args[1]['pl']['l'])
+        if tup and tup[2] == 'stmt' and tup[3]['r']['rv'] == 'agg' and tup[3]['r']['kind'] == 'tuple':
+            out.append((parent, c, list(tup[3]['r']['ops'])))
+    return out
+
+
 def handed_to(prog, closure_fn):
     """[(parent Fn, call, argument position)] — the calls of the parent that receive the closure `closure_fn` as an argument
     (e.g. the iterator adapter it is the predicate / mapper of)"""
